@@ -129,18 +129,55 @@ def sketch_rules(ctx):
         key = "%s:%s" % (rule, f.id)
         good = False
         det = ""
-        if len(g.retdefs) == 1 and g.retdefs[0].expr[0] == "agg" and g.retdefs[0].expr[1] == "vec" and len(g.retdefs[0].expr[2]) == 1:
-            v = g.retdefs[0].expr[2][0]
-            if v[0] == "phi":
-                init = g.eb.init_expr(v[1])
-                adds = [(bi, g.eb.call_expr(t)) for bi, t in f.body.calls() if t.callee.name == "add_assign"]
-                if init is not None and len(adds) == 1 and adds[0][1][2][0] == v:
-                    conds = block_conditions(g, adds[0][0])
-                    only_helper = any(c[0] == "truth" and c[2] is False and lead(c[1]) for c in conds)
-                    p0 = to_poly(init, atomize)
-                    p1 = to_poly(adds[0][1][2][1], atomize)
-                    det = "base=%r ; helper adds %r (guard: %s)" % (p0, p1, [fmt_cond(c) for c in conds])
-                    good = p0 == a * s0 + b and p1 == s0 * s0 - s1 - s2 and only_helper
+        # decided per path of this small loop-free function: the returned one-element vector holds  A*s0 + B  plus the sum of
+        # the `+=` operands met on the path; paths on which is_leader is false must add exactly s0^2 - s1 - s2, the others nothing.
+        # (`if !is_leader { x += .. }`, `if is_leader { return vec![x] } x += ..` and `let d = if ..` spell the same paths.)
+        from rules.common import enumerate_paths
+        paths = enumerate_paths(f.body)
+        rets = {}
+        for rd in g.retdefs:
+            if rd.expr is not None and rd.expr[0] == "agg" and rd.expr[1] == "vec" and len(rd.expr[2]) == 1:
+                rets[rd.block] = rd.expr[2][0]
+        adds = dict((bi, g.eb.call_expr(t)) for bi, t in f.body.calls() if t.callee.name == "add_assign")
+        edge_at = {}
+        for e in g.edges:
+            edge_at[(e.block, e.target)] = e
+        if paths and rets and len(rets) == len([rd for rd in g.retdefs]):
+            good = True
+            seen_roles = set()
+            for path in paths:
+                on = [bi for bi in path if bi in rets]
+                v = rets[on[-1]] if on else None
+                if v is None:
+                    good = False
+                    break
+                if v[0] == "phi":
+                    base = g.eb.init_expr(v[1])
+                    extra = [adds[bi][2][1] for bi in path if bi in adds and adds[bi][2][0] == v]
+                    if any(bi in adds and adds[bi][2][0] != v for bi in path):
+                        good = False
+                else:
+                    base, extra = v, []
+                role = None
+                for x, y in zip(path, path[1:]):
+                    e = edge_at.get((x, y))
+                    if e is not None and e.cond[0] == "truth" and lead(e.cond[1]):
+                        role = bool(e.cond[2])
+                try:
+                    total = to_poly(base, atomize)
+                    for x in extra:
+                        total = total + to_poly(x, atomize)
+                except Exception:
+                    total = None
+                det += "[is_leader=%s: %r] " % (role, total)
+                seen_roles.add(role)
+                if role is True:
+                    good = good and total == a * s0 + b
+                elif role is False:
+                    good = good and total == a * s0 + b + s0 * s0 - s1 - s2
+                else:
+                    good = False
+            good = good and seen_roles == {True, False}
         if good:
             ctx.ok(rule, key, "finish_sketch: " + det, loc=f.loc, sample={"rule": rule, "formula": det})
         else:
@@ -226,44 +263,40 @@ def run(ctx):
         f = ctx.fn(rule, name="verifier_shares_to_message", trait="Aggregator", self_adt=POPLAR1)
         g = ctx.guards(f)
         nxt = Call("next", Any())
-        # two shares required
+        # two shares required: two refusals `inputs.next() is None -> Err` (spelled `.ok_or_else(..)?`, `let Some(..) = .. else`,
+        # or a match) dominate every accepting return
         n_req = 0
         for e in g.edges:
             c = e.cond
-            if c[0] == "variant" and c[2] == "Break" and c[3] and Mentions(Call("ok_or_else", nxt))(c[1]) \
-                    and set(rd.kind for rd in e.leads) <= {"err"} and g.dominates_accepts(e):
+            if c[0] != "variant" or not c[3]:
+                continue
+            hit = (c[2] == "Break" and Mentions(Call("ok_or_else", nxt))(c[1])) or (c[2] == "Break" and Mentions(Call("ok_or", nxt))(c[1])) or \
+                  (c[2] == "None" and nxt(c[1]))
+            if hit and e.leads and set(rd.kind for rd in e.leads) <= {"err"} and g.dominates_accepts(e):
                 n_req += 1
         key = "%s:%s:two-shares-required" % (rule, f.id)
         if n_req >= 2:
-            ctx.ok(rule, key, "two `inputs.next().ok_or_else(..)?` dominate every accepting return", loc=f.loc)
+            ctx.ok(rule, key, "two `inputs.next()` absences are refused and dominate every accepting return", loc=f.loc)
         else:
             ctx.bad(rule, key, "fewer than two required-share checks dominate the accepting returns (%d)" % n_req, loc=f.loc)
         # a third share is refused
         ctx.require_variant_guard(rule, f, nxt, "Some", True, desc="third share -> Err")
-        # variants must agree
-        s0 = Try(Call("ok_or_else"))
-        rows = [
-            ("Inner,Inner", Agg("Result::Ok", Agg("Poplar1VerifierMessage", Mentions(Call("next_message")))),
-             []),
-        ]
-        table = __import__("guards").decision_table(g)
-        okk = True
+        # variants must agree, and the message kind follows the share kind.  Rows = accepting returns, with a value that was
+        # merged before being wrapped taken apart again (guards.expanded_accepts), so both spellings give the same rows.
+        rows = __import__("guards").expanded_accepts(g)
+        kinds_seen = {}
+        okk = bool(rows)
         det = []
-        for rd, conds in table:
+        for e, conds, rd in rows:
             vs = [c[2] for c in conds if c[0] == "variant" and c[3] and c[2] in ("Inner", "Leaf")]
             det.append(vs)
             if not (len(vs) == 2 and vs[0] == vs[1]):
                 okk = False
-            # message variant must match the share kind
-            kind = vs[0] if vs else "?"
-            want = "SketchInner" if kind == "Inner" else "SketchLeaf"
-            txt = fmt(rd.expr)
-            if want not in txt and "closure" in txt:
-                # variant constructor is inside the map_or closure: look it up
-                pass
+                continue
+            kinds_seen.setdefault(vs[0], []).append((e, conds, rd))
         key = "%s:%s:field-kinds-agree" % (rule, f.id)
-        if okk and len(table) == 2:
-            ctx.ok(rule, key, "accepting returns require both shares of the same kind: %s" % det, loc=f.loc)
+        if okk and set(kinds_seen) == {"Inner", "Leaf"}:
+            ctx.ok(rule, key, "accepting returns require both shares of the same kind: %s" % sorted(set(map(tuple, det))), loc=f.loc)
         else:
             ctx.bad(rule, key, "an accepting return does not require both verifier shares to have the same field kind: %s" % det, loc=f.loc)
         # error of next_message propagated
@@ -275,27 +308,29 @@ def run(ctx):
             ctx.ok(rule, key, "next_message(..)? is propagated in both the Inner and the Leaf arm", loc=f.loc)
         else:
             ctx.bad(rule, key, "the error of next_message is propagated in %d arm(s), expected both" % nprop, loc=f.loc)
-        # closures: Inner arm wraps SketchInner, Leaf arm wraps SketchLeaf
-        for rd, conds in table:
-            vs = [c[2] for c in conds if c[0] == "variant" and c[3] and c[2] in ("Inner", "Leaf")]
-            kind = vs[0] if vs else "?"
-            clos = [x for x in __import__("expr").walk(rd.expr) if isinstance(x, tuple) and x[0] == "closure"]
+        # Inner shares give Done / SketchInner, Leaf shares give Done / SketchLeaf (the constructor may sit in a map_or closure)
+        W = __import__("expr").walk
+        for kind in ("Inner", "Leaf"):
             key = "%s:%s:message-kind:%s" % (rule, f.id, kind)
-            good = False
-            for c in clos:
-                cf = ctx.prog.by_did.get(c[3])
-                if cf is None:
-                    continue
-                cg = ctx.guards(cf)
-                for crd in cg.retdefs:
-                    if crd.expr is not None and Agg("VerifierMessageVariant::Sketch" + kind)(crd.expr):
-                        good = True
-            done = any(isinstance(x, tuple) and x[0] == "agg" and x[1].endswith("VerifierMessageVariant::Done")
-                       for x in __import__("expr").walk(rd.expr))
-            if good and done:
-                ctx.ok(rule, key, "%s shares produce Done or Sketch%s" % (kind, kind), loc=f.loc)
+            variants = set()
+            from_nm = True
+            for e, conds, rd in kinds_seen.get(kind, []):
+                for x in W(e):
+                    if isinstance(x, tuple) and x[0] == "agg" and "VerifierMessageVariant::" in str(x[1]):
+                        variants.add(str(x[1]).split("::")[-1])
+                    if isinstance(x, tuple) and x[0] == "closure":
+                        cf = ctx.prog.by_did.get(x[3])
+                        if cf is not None:
+                            for crd in ctx.guards(cf).retdefs:
+                                for y in W(crd.expr) if crd.expr is not None else []:
+                                    if isinstance(y, tuple) and y[0] == "agg" and "VerifierMessageVariant::" in str(y[1]):
+                                        variants.add(str(y[1]).split("::")[-1])
+                if not (Mentions(Call("next_message"))(e) or any(Mentions(Call("next_message"))(c[1]) for c in conds if c[0] == "variant")):
+                    from_nm = False
+            if variants == {"Done", "Sketch" + kind} and from_nm:
+                ctx.ok(rule, key, "%s shares produce Done or Sketch%s, decided by next_message" % (kind, kind), loc=f.loc)
             else:
-                ctx.bad(rule, key, "%s arm does not map to Done / Sketch%s: %s" % (kind, kind, fmt(rd.expr)[:200]), loc=f.loc)
+                ctx.bad(rule, key, "%s arm does not map to exactly Done / Sketch%s from next_message: %s" % (kind, kind, sorted(variants)), loc=f.loc)
     except Skip:
         pass
     ctx.floor(rule, 6)
